@@ -23,6 +23,11 @@ fn main() {
         }
         return;
     }
+    if args[1] == "fuzz-seeds" {
+        // vh fuzz-seeds <dir>: writes the tracked starting corpus of the cargo-fuzz targets
+        vh::props::c08::write_fuzz_seeds(std::path::Path::new(&args[2]));
+        return;
+    }
     let prop = args[1].to_uppercase();
     let env = Env::from_args(&prop, &args[2..]);
     install_panic_hook();
